@@ -180,3 +180,85 @@ def _product_specs(prop, tier, seed):
         gap_bits, k_bits, max_paths = 26, 40, 3000
     tl = [(n, l) for n, l in tl if templates.natural_alignment(l)]
     return [('harness.layout', 'product_task', (prop, n, l, gap_bits, k_bits, max_paths)) for n, l in tl], len(tl), gap_bits
+
+
+def run_C10(tier, seed, t0):
+    from .data import directive_programs
+    bits = 96 if tier == 'thorough' else 72
+    specs = [('harness.data', 'directive_task', (n, s, v, bits)) for n, s, v in directive_programs()]
+    specs += [('harness.data', 'include_bytes_task', (k,)) for k in range(3)]
+    specs += [('harness.strings', 'string_task', (tier,))]
+    res = pmap(specs)
+    return finish('C10', tier, seed, res, t0,
+                  bounds=dict(values='signed %d-bit through db/dh/dw/dd, pack [<>][bBhHiIlLqQ], bytes/shorts/ints/longs/longlongs' % bits,
+                              include_bytes='file present in any subset of {source dir, -i dir, working dir} (symbolic bits), working directory one of 4, source as path or text',
+                              string='see explanation: escape/UTF-8 processing is decided over symbolic code points of strings up to 3 characters'),
+                  stubs=STUBS_ASM + ['virtual file system (os.path.exists/getsize/abspath/getcwd, open) with symbolic existence bits'],
+                  assumptions=STUBS_ASM,
+                  outside=['string literals longer than the bound', 'real OS semantics (symlinks, permissions)'])
+
+
+def run_C11(tier, seed, t0):
+    w = _w(tier)
+    bits = 96 if tier == 'thorough' else 64
+    specs = []
+    for m in isa.T:
+        for c in ((False, True) if not m.startswith('c.') else (False,)):
+            specs.append(('harness.equiv', 'equiv_task', ('C11', m, w, 'const-vs-literal', c)))
+    specs.append(('harness.equiv', 'constdef_task', (bits,)))
+    specs.append(('harness.equiv', 'charlit_table_task', ()))
+    from .data import directive_programs
+    dp = {n: (s, v) for n, s, v in directive_programs()}
+    for d in ('db', 'dh', 'dw', 'dd'):
+        specs.append(('harness.equiv', 'data_equiv_task', (d, 72)))
+    specs += [('harness.pipe', 'hilo_pairs_task', (k, 34)) for k in (0, 2, 5)]
+    to = 120 if tier == 'thorough' else 45
+    for f in ('charlit', 'charlit_operand'):
+        specs.append(('harness.xhair', 'xhair_task', ('C11', 'charlit.py', to, [f, f + '__mustfail'], [f])))
+    res = pmap(specs)
+    return finish('C11', tier, seed, res, t0,
+                  bounds=dict(operand_positions='every operand of every mnemonic: constant / register alias vs literal numeral, compression off and on, ' + _wtext(w),
+                              expressions='A symbolic signed %d-bit; one definition per documented operator (+ - * // %% << >> & | ^ ~ unary -, parentheses, hex and binary literals, earlier constants by name); // and %% decided for |A| < 2^23' % bits,
+                              character_literals='finite table of the 94 printable ASCII characters (compared concretely, like the register table) + CrossHair search over one symbolic character (bug-hunting only)',
+                              data_and_modifiers='db/dh/dw/dd with a constant vs a literal; constants inside %hi/%lo/%position (three pair templates)'),
+                  stubs=STUBS_ASM,
+                  assumptions=['reference evaluation of the operators on 160-bit two\'s complement (no wrap within the stated width)'] + STUBS_ASM,
+                  outside=['decimal/hex/binary spellings of one number and operator precedence (CPython\'s eval)',
+                           'character literals beyond printable ASCII; a lone backslash literal (escape syntax, don\'t-care)'])
+
+
+def run_C13(tier, seed, t0):
+    from . import xhair
+    w = _w(tier)
+    specs = []
+    to = 240 if tier == 'thorough' else 75
+    slow = {'sepchars_insn', 'sepchars_bytes', 'sepchars_amo'}
+    files = ['lexer.py', 'program_t.py' if tier == 'thorough' else 'program.py']
+    ncond = 0
+    for fn in files:
+        for func, lineno, doc in xhair.conditions(fn):
+            if '__' in func:
+                continue
+            if (func in slow or func.startswith('commentq_')) and tier != 'thorough':
+                continue
+            ncond += 1
+            specs.append(('harness.xhair', 'xhair_task', ('C13', fn, to, [func, func + '__mustfail'])))
+    for m in ('jalr', 'lb', 'lh', 'lw', 'lbu', 'lhu', 'sb', 'sh', 'sw', 'c.lw', 'c.sw'):
+        for c in ((False, True) if not m.startswith('c.') else (False,)):
+            specs.append(('harness.equiv', 'equiv_task', ('C13', m, w, 'imm(reg)', c)))
+    specs.append(('harness.pipe', 'regtable_task', ()))
+    res = pmap(specs)
+    return finish('C13', tier, seed, res, t0,
+                  bounds=dict(crosshair_conditions=ncond,
+                              lexer='per line kind (instruction, label, constant, bytes, pack, dw, align, lw imm(reg), %hi): trailing comment with symbolic text (<= 8 characters, no newline), indentation (<= 6 spaces, <= 3 tabs), separator runs (<= 2 each of space, comma, tab)',
+                              program='an 11-line program with every item kind: blank / whitespace-only lines and whole-line comments (concrete text) inserted at each of the 12 positions with symbolic counts, each line indented by symbolic counts and given a trailing comment',
+                              base_offset='imm(reg) vs reg, imm for the 11 base+offset mnemonics with symbolic operands (%s), compression off and on' % _wtext(w),
+                              registers='finite table: every spelling of REGISTERS and 0x/0b/0o numerals in each operand position',
+                              per_condition_timeout_s=to),
+                  stubs=STUBS_ASM,
+                  assumptions=['CrossHair 0.0.110 verdict "Confirmed over all paths" is taken as discharged within the stated bounds'] + STUBS_ASM,
+                  outside=['numeric base spellings of one number (behind CPython eval/int)',
+                           'characters that str.splitlines treats as line ends inside comments',
+                           'symbolic insertion positions and symbolic comment text at program level (CrossHair does not confirm them)',
+                           'programs other than the template'],
+                  extra=dict(engine_note='E2 CrossHair for the textual conditions, E1 symx for imm(reg) and operands'))
